@@ -15,7 +15,7 @@ def G : Tables :=
   { typesMap := SaTables.typesMapKeys, methods := SaTables.methods, functions := SaTables.functionsKeys,
     opmap := SaTables.opmap, listOps := SaTables.listOps, textHas := SaTables.textHas,
     tupleIsList := SaTables.tupleIsList, dupExc := excOfProbe SaTables.dupExc,
-    funcPyAttrs := SaTables.funcPyAttrs, funcGuard := SaTables.funcGuard }
+    funcPyAttrs := SaTables.funcPyAttrs, funcGuard := SaTables.funcGuard, funcEmptyGuard := SaTables.funcEmptyGuard }
 
 def hexVal (c : Char) : Nat :=
   if c.isDigit then c.toNat - '0'.toNat else if 'a' ≤ c ∧ c ≤ 'f' then c.toNat - 'a'.toNat + 10 else 0
